@@ -2,6 +2,9 @@
 SPEC = {
     'engine': 'text', 'harness': 'text.cpp',
     'repo_srcs': ['N2kMsg.cpp', 'N2kStream.cpp', 'N2kTimer.cpp'],
+    # -O0: 'never reads beyond the terminator' is a statement about the source; at -O1 the compiler deletes loads whose
+    # value is unused (e.g. the last `byte=*str` of N2kRequireUnicode before `return true`), hiding a real over-read
+    'cxxflags': ['-O0'],
     'translators': ['constants'],
     'lean_modules': ['N2k.Props.Consts.C16', 'N2k.Props.C16'], 'props_files': ['N2k/Props/Consts/C16.lean', 'N2k/Props/C16.lean'],
     'case_start': ['addstr', 'addais', 'addvar', 'getstr1', 'getstr', 'getvar', 'rtstr', 'rtais', 'rtvar',
